@@ -67,6 +67,16 @@ def run_c05(h, sch, rng, tier, verdict, counters, stats, samples):
                {'op': 'set', 'v': mrec(big, 2), 'freeze': True}, {'op': 'w'}, {'op': 'set', 'v': mrec(big[:-4], 3), 'freeze': True}, {'op': 'w'}, {'op': 'f'}]
         cases.append(dict(id=f'c5-big-last-column-c{compr}', root='Metrics', opts={'compression': compr, 'flags': 0}, ops=ops, mode='',
                           cuts=[-1]))
+    # a frame of several zstd blocks (> 128 KiB of content that does not compress): cuts inside the later
+    # blocks and at their boundaries come after the record count of the frame has been decoded
+    noise = lambda n: ''.join('%016x' % rng.next() for _ in range(n // 8))
+    for compr in (1, 0):
+        ops = [{'op': 'set', 'v': mrec('01', 1), 'freeze': True}, {'op': 'w'}, {'op': 'f'}]
+        for t in range(5):
+            ops += [{'op': 'set', 'v': mrec(noise(70000), 2 + t), 'freeze': True}, {'op': 'w'}]
+        ops += [{'op': 'f'}, {'op': 'set', 'v': mrec('02', 9), 'freeze': True}, {'op': 'w'}, {'op': 'f'}]
+        cases.append(dict(id=f'c5-multi-block-frame-c{compr}', root='Metrics', opts={'compression': compr, 'flags': rng.choice([0, 2, 4])}, ops=ops, mode='',
+                          cuts=[-1], multiblock=True))
     outs, stderr, rc = h.run_go([c for c in cases if c.get('cuts') != [-1]], timeout=1500)
     # big cases: first pass to learn the length, then sampled cuts
     bigc = [c for c in cases if c.get('cuts') == [-1]]
@@ -75,6 +85,11 @@ def run_c05(h, sch, rng, tier, verdict, counters, stats, samples):
     bouts, _, _ = h.run_go(bigc)
     for c, o in zip(bigc, bouts):
         nb = len(o['stream']) // 2
+        if c.get('multiblock'):
+            # zstd blocks of incompressible content are 128 KiB of content + 3 bytes of block header each
+            blk = [200 + j * 131075 + d for j in range(1, 4) for d in range(-40, 41, 4)]
+            c['cuts'] = sorted(set(list(range(0, 120, 7)) + list(range(120, nb, 4099)) + blk + list(range(max(0, nb - 60), nb + 1))) & set(range(nb + 1)))
+            continue
         c['cuts'] = sorted(set(list(range(0, min(nb, 300))) + list(range(300, nb, 97)) + list(range(max(0, nb - 200), nb + 1))
                                + [nb - 3000, nb - 6000, nb - 9000, nb - 11000]) & set(range(nb + 1)))
     bouts, _, _ = h.run_go(bigc)
